@@ -36,9 +36,11 @@ EXTRACT = "extract/ExC11.v"
 OBLIGATION = "frozen-values"
 THEOREMS = [
     "C11_no_alias", "C11_no_alias_args", "C11_no_alias_from_dict", "C11_no_write_op",
-    "C11_eq_hash", "C11_same_args_equal", "C11_idict_order_free",
-    "C11_eq_hash_fields_table", "C11_arg_kinds_table",
-    "C11_no_alias_refuted_old", "C11_no_alias_refuted_unchecked_field", "C11_nested_shared_example",
+    "C11_eq_hash", "C11_eq_hash_fields_table", "C11_eq_hash_needs_table", "C11_arg_kinds_table",
+    "C11_same_args_equal", "C11_same_args_equal_example",
+    "C11_idict_order_free", "C11_idict_order_free_satisfiable",
+    "C11_no_alias_refuted_old", "C11_no_alias_refuted_old_release",
+    "C11_no_alias_refuted_unchecked_field", "C11_nested_shared_example",
     "C11_no_alias_satisfiable", "C11_eq_hash_satisfiable",
 ]
 RULE = ("for each attrs class of swh.model.model, each SWHID class and ImmutableDict: generated valid field values; "
